@@ -86,14 +86,14 @@ def check_admonition(col, title, body_md, classes=""):
                  function="myst_parser.mdit_to_docutils.html_to_nodes:html_to_nodes")
 
 
-def gfm_raws(text):
+def gfm_raws(text, exts=()):
     from docutils import nodes
 
     from myst_parser.config.main import MdParserConfig
     from myst_parser.mdit_to_docutils.base import DocutilsRenderer, make_document
     from myst_parser.parsers.mdit import create_md_parser
 
-    config = MdParserConfig(gfm_only=True)
+    config = MdParserConfig(gfm_only=True, enable_extensions=set(exts))
     md = create_md_parser(config, DocutilsRenderer)
     try:
         import linkify_it  # noqa: F401
@@ -101,15 +101,18 @@ def gfm_raws(text):
         md.disable("linkify")
         md.options["linkify"] = False
     document = make_document()
+    # (make_document is a bare docutils document: the MyST parser's own settings are not registered on it; the warning
+    #  API reads this one when the HTML cannot be parsed)
+    document.settings.myst_suppress_warnings = []
     md.options["document"] = document
     md.render(text)
     return [n.astext() for n in document.findall(nodes.raw) if "html" in n["format"]]
 
 
-def check_gfm(col, text):
-    case = {"gfm_text": text}
+def check_gfm(col, text, exts=()):
+    case = {"gfm_text": text, "exts": list(exts)}
     try:
-        raws = gfm_raws(text)
+        raws = gfm_raws(text, exts)
     except Exception as exc:  # noqa: BLE001
         col.fail("C17.gfm", case, f"{type(exc).__name__}: {exc}")
         return
@@ -165,13 +168,21 @@ def run(tier, seed, extra):
             col.case(("gfm", text))
             check_gfm(col, text)
             cnt += 1
-    col.add_bound("GFM mode: every occurrence of a disallowed tag is neutralised", f"{len(DISALLOWED)} tags x 11 spellings", cnt, time.time() - t0)
+        # ... whichever HTML extensions are enabled, also when the HTML cannot be turned into a tree (a marked section makes
+        # the stdlib parser raise) or the tree is empty (an unterminated construct)
+        for exts in (("html_image",), ("html_admonition",), ("html_image", "html_admonition")):
+            for form in ("<div>\n<{t}>x</{t}>\n</div>", "<![foo]>\n<{t}>x</{t}>", "<{t}>\n<![x]>\n</{t}>", "<{t} a=\"1\"", "a <{t}>inline</{t}> b"):
+                text = form.format(t=tag) + "\n"
+                col.case(("gfm", text, exts))
+                check_gfm(col, text, exts)
+                cnt += 1
+    col.add_bound("GFM mode: every occurrence of a disallowed tag is neutralised", f"{len(DISALLOWED)} tags x (11 spellings + 5 spellings x 3 HTML-extension subsets)", cnt, time.time() - t0)
     return col.result()
 
 
 def replay(col, case, check):
     if "gfm_text" in case:
-        check_gfm(col, case["gfm_text"])
+        check_gfm(col, case["gfm_text"], tuple(case.get("exts", ())))
     elif "img" in case:
         check_img(col, case["img"])
     elif "admonition_title" in case:
